@@ -85,10 +85,10 @@ impl Real {
 		})
 	}
 
-	pub(crate) fn is_integer(&self) -> bool {
+	pub(crate) fn is_integer<I: Interrupt>(&self, int: &I) -> FResult<bool> {
 		match &self.pattern {
-			Pattern::Simple(s) => s.is_integer(),
-			Pattern::Pi(_) => false,
+			Pattern::Simple(s) => s.is_integer(int),
+			Pattern::Pi(_) => Ok(false),
 		}
 	}
 
